@@ -459,7 +459,7 @@ pub fn to_duration(num: &Number) -> Result<Duration, String> {
     }
     let ms = &num.value * &Numeric::from(1000);
     let (ms, rem) = ms.div_rem(&Numeric::from(1));
-    let ns = &rem * &Numeric::from(1_000_000_000);
+    let ns = &rem * &Numeric::from(1_000_000);
     Ok(Duration::milliseconds(ms.to_int().unwrap()) + Duration::nanoseconds(ns.to_int().unwrap()))
 }
 
